@@ -72,9 +72,7 @@ Proof.
   exists (plain V1b3 200 std_headers []), (Some []), (Some (be 8 32 ++ w24)),
          (w24 ++ [0; 0; 0; 0; 0; 0; 0; 0]), [], toy_date, toy_expires.
   eexists. split; [|split; [vm_compute; reflexivity|split; [vm_compute; reflexivity|]]].
-  - unfold esized, hsized, i64. cbn [plain e_uri e_method e_status e_reqh e_resph].
-    repeat split; try (vm_compute; reflexivity); try (vm_compute; discriminate);
-      repeat constructor; vm_compute; reflexivity.
+  - apply esizedb_ok. vm_compute. reflexivity.
   - split; [|split; discriminate]. vm_compute. repeat split; reflexivity.
 Qed.
 Print Assumptions C01_signed_message_cert_sha_len_refuted.
@@ -251,9 +249,7 @@ Proof. reflexivity. Qed.
 (* sizes *)
 Lemma ex_sized : esized ex1 /\ esized ex2 /\ esized ex3.
 Proof.
-  unfold esized, hsized, i64.
-  repeat split; try (vm_compute; reflexivity); try (vm_compute; discriminate);
-    repeat constructor; vm_compute; reflexivity.
+  repeat split; apply esizedb_ok; vm_compute; reflexivity.
 Qed.
 Example ex_sig_sized : lenN (e_sig ex1) < two64 /\ lenN (e_sig ex2) < two64 /\ lenN (e_sig ex3) < two64.
 Proof. repeat split; vm_compute; reflexivity. Qed.
@@ -321,4 +317,73 @@ Example b3_method_unsigned : toy_verify (with_method ex3 (s2b "POST")) toy_date 
 Proof. vm_compute. reflexivity. Qed.
 (* a header map is a finite map: its order is irrelevant *)
 Example header_order_irrelevant : toy_verify (with_resph ex3 (rev (e_resph ex3))) toy_date 0 = Valid toy_body.
+Proof. vm_compute. reflexivity. Qed.
+
+(* ---- non-vacuity of the injectivity theorems ------------------------------------------ *)
+(* two different in-memory exchanges (response header map listed in another
+   order) with the same signed message: the theorem's premises hold and its
+   conclusion is a proper Permutation *)
+Definition ex3r : exchange := with_resph ex3 (rev (e_resph ex3)).
+Definition m3 : bytes :=
+  Eval vm_compute in
+    match signed_message ex3 (Some (sha256 toy_cert)) toy_validity toy_date toy_expires with
+    | Ok m => m | _ => [] end.
+Example same_message_two_exchanges :
+  signed_message ex3 (Some (sha256 toy_cert)) toy_validity toy_date toy_expires = Ok m3 /\
+  signed_message ex3r (Some (sha256 toy_cert)) toy_validity toy_date toy_expires = Ok m3 /\
+  e_resph ex3 <> e_resph ex3r /\
+  esized ex3 /\ esized ex3r /\
+  params_ok V1b3 (Some (sha256 toy_cert)) toy_validity toy_date toy_expires.
+Proof.
+  split; [vm_compute; reflexivity|]. split; [vm_compute; reflexivity|].
+  split; [vm_compute; discriminate|].
+  split; [apply esizedb_ok; vm_compute; reflexivity|]. split; [apply esizedb_ok; vm_compute; reflexivity|].
+  vm_compute. repeat split; discriminate || reflexivity.
+Qed.
+Example same_message_two_exchanges_b1 :
+  exists m, signed_message ex1 (Some (sha256 toy_cert)) toy_validity toy_date toy_expires = Ok m /\
+            signed_message (with_resph ex1 (rev (e_resph ex1))) (Some (sha256 toy_cert)) toy_validity
+                           toy_date toy_expires = Ok m /\
+            params_ok V1b1 (Some (sha256 toy_cert)) toy_validity toy_date toy_expires.
+Proof.
+  eexists. split; [vm_compute; reflexivity|]. split; [vm_compute; reflexivity|].
+  vm_compute. repeat split; discriminate || reflexivity.
+Qed.
+
+(* ---- non-vacuity of tamper_rejected ---------------------------------------------------- *)
+(* a signature oracle under which key 7 signed m3 and nothing else *)
+Definition only_m3_sig_ok (kid : N) (m sg : bytes) : bool :=
+  (kid =? 7) && bytes_eqb m m3 && bytes_eqb sg (sha256 (kid :: m)).
+Definition only_m3_signed (kid : N) (m : bytes) : Prop := m = m3.
+Lemma only_m3_unforgeable kid m sg : only_m3_sig_ok kid m sg = true -> only_m3_signed kid m.
+Proof.
+  unfold only_m3_sig_ok, only_m3_signed. intros H.
+  apply andb_true_iff in H. destruct H as [H _]. apply andb_true_iff in H. destruct H as [_ H].
+  apply Proofs.BaseLemmas.bytes_eqb_eq. exact H.
+Qed.
+Example ex3_verifies_only_m3 :
+  verify h32 toy_x509 only_m3_sig_ok toy_status toy_fetch ex3 toy_date 0 = Valid toy_body.
+Proof. vm_compute. reflexivity. Qed.
+(* all premises of C01_tamper_rejected hold together (e = e' = ex3) *)
+Example tamper_rejected_nonvacuous :
+  exists s,
+    sf_equiv (fields_of ex3 (Some (h32 toy_cert)) toy_validity toy_date toy_expires)
+             (fields_of ex3 (Some (s_cert_sha s)) (s_validity s) (s_date s) (s_expires s)).
+Proof.
+  destruct (C01_tamper_rejected h32 toy_x509 only_m3_sig_ok toy_status toy_fetch only_m3_signed
+              only_m3_unforgeable h32_len ex3 ex3 (Some (h32 toy_cert)) toy_validity toy_date toy_expires m3
+              toy_date 0 toy_body) as (s & Q & _).
+  - intros kid m' H. exact H.
+  - vm_compute. reflexivity.
+  - apply esizedb_ok. vm_compute. reflexivity.
+  - vm_compute. repeat split; discriminate || reflexivity.
+  - apply esizedb_ok. vm_compute. reflexivity.
+  - vm_compute. reflexivity.
+  - unfold time_ok, toy_date. lia.
+  - exact ex3_verifies_only_m3.
+  - exists s. exact Q.
+Qed.
+(* and with that oracle every tampered variant above is refused as well *)
+Example tamper_status_only_m3 :
+  verify h32 toy_x509 only_m3_sig_ok toy_status toy_fetch (with_status ex3 404) toy_date 0 = Invalid.
 Proof. vm_compute. reflexivity. Qed.
